@@ -118,7 +118,8 @@ def sub_names(ctx, shard, n):
 
 def sub_names_long(ctx, shard, n):
     from vlib.strats import any_accidentals, lopsided_accidentals
-    strat = st.builds(lambda l, a: l + a, st.sampled_from(T.LETTERS), st.text(alphabet="#b", min_size=9, max_size=60) | lopsided_accidentals(60))
+    strat = st.builds(lambda l, a: l + a, st.sampled_from(T.LETTERS), st.text(alphabet="#b", min_size=9, max_size=60) | lopsided_accidentals(60) | lopsided_accidentals(400)
+                      | st.builds(lambda s, k: s * k, st.sampled_from("#b"), st.integers(100, 400)))
     ctx.given("name", check_name, strat, 1500 if ctx.quick else 20000)
     # pairs far beyond the enumerated bound, half of them on one letter (a whole octave or more of accidentals apart)
     letter = st.sampled_from(T.LETTERS)
